@@ -1356,3 +1356,89 @@ def rule_S3(ctx) -> None:
         ctx.proved("S3", "load:prefix", mod.loc(load), f"{len(paths)} paths")
     else:
         ctx.refuted("S3", "load:prefix", why, mod.loc(load), why, "M().load(stream, SIZE_DELIMITED)")
+
+
+# ---------------------------------------------------------------------------
+# U9 every record is taken through the record reader
+
+
+def rule_U9(ctx, rule: str = "U9") -> None:
+    """Message.load consumes its stream only through the record reader, and leaves the record loop only when the reader is
+    exhausted (or the declared size is): bytes it reads itself are never split into records, so known fields inside them are not
+    decoded - whatever their field numbers (records may come in any order)"""
+    mod = ctx.repo.mod(M_INIT)
+    fn = mod.func("Message.load")
+    ctx.analysed("Message.load")
+    stream = fn.args.args[1].arg
+    size = _size_param(fn)
+    readers = {"load_fields", "parse_fields"}
+    gens = set()
+    recs = set()
+    for n in ast.walk(fn):
+        if isinstance(n, ast.Assign) and isinstance(n.value, ast.Call) and isinstance(n.value.func, ast.Name) and n.value.func.id in readers:
+            gens |= {t.id for t in n.targets if isinstance(t, ast.Name)}
+    for n in ast.walk(fn):
+        if isinstance(n, ast.Assign) and isinstance(n.value, ast.Call) and isinstance(n.value.func, ast.Name) and n.value.func.id == "next" and n.value.args \
+                and isinstance(n.value.args[0], ast.Name) and n.value.args[0].id in gens:
+            recs |= {t.id for t in n.targets if isinstance(t, ast.Name)}
+        if isinstance(n, ast.For) and isinstance(n.target, ast.Name) and ((isinstance(n.iter, ast.Name) and n.iter.id in gens) or any(
+                isinstance(c, ast.Call) and isinstance(c.func, ast.Name) and c.func.id in readers for c in ast.walk(n.iter))):
+            recs.add(n.target.id)
+    direct = [n for n in ast.walk(fn) if isinstance(n, ast.Call) and isinstance(n.func, ast.Attribute) and isinstance(n.func.value, ast.Name) and n.func.value.id == stream
+              and n.func.attr in ("read", "read1", "readinto", "readline", "readall", "getvalue", "getbuffer", "seek", "peek")]
+    ctx.count(len(direct) + 1)
+    if direct:
+        ctx.refuted(rule, "load:stream-read-only-by-the-record-reader", ast.unparse(direct[0])[:60], mod.loc(direct[0]),
+                    f"Message.load reads the stream itself ({ast.unparse(direct[0])}) besides the record reader: those bytes are not split into records, so known fields among them are "
+                    "never decoded (records may arrive in any order; a higher unknown number says nothing about what follows)", "records: unknown #9, then known #1")
+    else:
+        ctx.proved(rule, "load:stream-read-only-by-the-record-reader", mod.loc(fn), f"record generators {sorted(gens)}")
+    # exits of the record loop
+    parents = {}
+    for n in ast.walk(fn):
+        for c in ast.iter_child_nodes(n):
+            parents[c] = n
+
+    def wire_loop_of(n):
+        while n in parents:
+            n = parents[n]
+            if isinstance(n, (ast.For, ast.While)):
+                return n
+        return None
+
+    def is_wire_loop(lp) -> bool:
+        if isinstance(lp, ast.For) and isinstance(lp.target, ast.Name) and lp.target.id in recs:
+            return True
+        return any(isinstance(c, ast.Call) and isinstance(c.func, ast.Name) and c.func.id == "next" and c.args and isinstance(c.args[0], ast.Name) and c.args[0].id in gens
+                   for c in ast.walk(lp))
+
+    n_br = 0
+    for br in [n for n in ast.walk(fn) if isinstance(n, ast.Break)]:
+        lp = wire_loop_of(br)
+        if lp is None or not is_wire_loop(lp):
+            continue
+        n_br += 1
+        guards = []
+        n = br
+        in_stop = False
+        while n is not lp:
+            pa = parents[n]
+            if isinstance(pa, ast.If):
+                guards.append(pa.test)
+            if isinstance(pa, ast.ExceptHandler) and pa.type is not None and "StopIteration" in ast.unparse(pa.type):
+                in_stop = True
+            n = pa
+        texts = [ast.unparse(g) for g in guards]
+        eof = in_stop or any(isinstance(g, ast.Compare) and isinstance(g.left, ast.Name) and g.left.id in recs and isinstance(g.ops[0], ast.Is) and ast.unparse(g.comparators[0]) == "None"
+                             for g in guards) or any(isinstance(g, ast.UnaryOp) and isinstance(g.op, ast.Not) and isinstance(g.operand, ast.Name) and g.operand.id in recs for g in guards)
+        sized = size is not None and any(size in {x.id for x in ast.walk(g) if isinstance(x, ast.Name)} for g in guards) and not any(
+            isinstance(x, ast.Attribute) and isinstance(x.value, ast.Name) and x.value.id in recs and x.attr in ("number", "wire_type") for g in guards for x in ast.walk(g))
+        name = f"load:leaves-record-loop-only-at-the-end[{n_br}]"
+        if eof or sized:
+            ctx.proved(rule, name, mod.loc(br), "reader exhausted" if eof else "declared size exhausted")
+        elif any(isinstance(x, ast.Attribute) and isinstance(x.value, ast.Name) and x.value.id in recs for g in guards for x in ast.walk(g)):
+            ctx.refuted(rule, name, (texts[0] if texts else "unconditional")[:60], mod.loc(br),
+                        f"the record loop is left when {texts[0] if texts else 'reached'} although the reader may hold further records: whatever follows (known fields included) is not decoded",
+                        "records: unknown #9, then known #1")
+        else:
+            ctx.inconclusive(rule, name, f"exit of the record loop under {texts} not recognised as end of input", mod.loc(br))
